@@ -13,6 +13,7 @@ RealS, IntS = z3.RealSort(), z3.IntSort()
 amulR = z3.Function("amul", RealS, RealS, RealS)
 adivR = z3.Function("adiv", RealS, RealS, RealS)
 amulI = z3.Function("amulI", IntS, IntS, IntS)
+atoint = z3.Function("atoint", RealS, IntS)
 
 
 def _is_num(t):
@@ -94,6 +95,16 @@ class Abstractor:
             if _is_num(ch[1]):
                 return _rebuild(t, ch)
             return self.div2(ch[0], ch[1])
+        if k == z3.Z3_OP_TO_INT:
+            # floor as an uninterpreted function with its two defining linear bounds
+            key = ("i", ch[0].get_id())
+            r = self.sites.get(key)
+            if r is None:
+                r = atoint(ch[0])
+                self.sites[key] = (r, ch[0], None)
+                self.s.add(z3.ToReal(r) <= ch[0], ch[0] < z3.ToReal(r) + 1)
+                return r
+            return r[0]
         return _rebuild(t, ch)
 
 
